@@ -19,8 +19,18 @@ sys.path.insert(0, os.path.join(os.path.dirname(os.path.abspath(__file__)), ".."
 import core
 import c05_slices as gen
 
+import time
 chk = core.Check("C05")
 w = chk.work
+phase = {}
+_t = [time.time()]
+
+
+def lap(name):
+    phase[name] = round(time.time() - _t[0], 1)
+    _t[0] = time.time()
+
+
 SRC = os.path.join(core.V, "progs", "c05_slicevm")
 GENPY = os.path.join(core.V, "gen", "c05_slices.py")
 QUICK = chk.tier == "quick"
@@ -28,12 +38,14 @@ NSCRIPTS = int(os.environ.get("VERIF_C05_SCRIPTS", "4096" if QUICK else "400000"
 PER_BATCH = 64 if QUICK else 500
 VG_EVERY = 100          # every 100th script also runs under valgrind memcheck (nogc build)
 VG_BATCH = 48
+ISOLATE_MAX = 2         # scripts blamed per process for interposer / memcheck reports (stderr is not interleaved with the trace)
 WORKERS = min(core.NCPU, int(os.environ.get("VERIF_C05_WORKERS", "16")))
 RT = "github.com/goplus/llgo/runtime/internal/runtime."
 RT_SLICE_STRING = re.compile(r"runtime/internal/runtime\.(Slice\w*|GrowSlice|NewSlice3|MakeSlice|nextslicecap|String\w*|NewStringIter|decoderune|encoderune)\b")
 
 # ------------------------------------------------------------------ builds
 llgo = core.build_llgo(w)
+lap("build_llgo")
 bd = w.sub("bin")
 srcs = {}
 for name in ("llgo", "nogc", "go124", "go126"):
@@ -60,6 +72,9 @@ for name, (rc, so, se) in core.pmap(build, jobs, workers=4):
                           "llgo cannot build the slice/string VM (progs/c05_slicevm%s) that go accepts:\n%s" % (", -tags nogc" if name == "nogc" else "", (so + se)[-1500:]))
             chk.finish()
         core.broken("reference toolchain %s rejects the VM:\n%s" % (name, (so + se)[-2000:]))
+
+
+lap("build_vms")
 
 
 def symtab(path):
@@ -208,12 +223,16 @@ def evaluate(scripts, ref, mode):
                     fails.append((sid_of(todo[0]), "overlap", "memcpy with overlapping ranges in %s" % " <- ".join(f.replace(RT, "runtime.") for f in rt[0][:4])))
                 else:
                     upto = todo if not died else todo[:len(todo) - len(nxt)]
+                    found = 0
                     for sc in upto:
                         r1 = run_vm("llgo", text_of([sc]))
                         stats["procs"] += 1
                         rp = [fr for fr in overlap_reports(r1.err) if any(RT_SLICE_STRING.search(f) for f in fr)]
                         if rp:
                             fails.append((sid_of(sc), "overlap", "memcpy with overlapping ranges in %s" % " <- ".join(f.replace(RT, "runtime.") for f in rp[0][:4])))
+                            found += 1
+                            if found >= ISOLATE_MAX:
+                                break       # enough witnesses from this process; the rest would be the same report
         else:
             errs = vg_errors(r.err)
             if errs:
@@ -222,6 +241,7 @@ def evaluate(scripts, ref, mode):
                     h, fr = errs[0]
                     fails.append((sid_of(upto[0]), "memcheck", "%s; %s" % (h, " | ".join(fr[:5]))))
                 else:
+                    found = 0
                     for sc in upto:
                         r1 = run_vm("nogc", text_of([sc]), vg=True)
                         stats["procs"] += 1
@@ -229,6 +249,9 @@ def evaluate(scripts, ref, mode):
                         if e1:
                             h, fr = e1[0]
                             fails.append((sid_of(sc), "memcheck", "%s; %s" % (h, " | ".join(fr[:5]))))
+                            found += 1
+                            if found >= ISOLATE_MAX:
+                                break
         todo = nxt
     return fails, stats
 
@@ -314,6 +337,7 @@ for fid, construct, what, lines in PROBES:
         if not chk.known(fid, what):
             report("probe-" + fid, replay_files(text_of([sc])),
                    "fixed probe for %s fails (not listed as an open finding): %s\n%s" % (fid, what, fails[0][2]))
+lap("probes")
 avoid = sorted(avoid)
 AVOID_ARG = ",".join(avoid)
 chk.cov["avoided_constructs"] = avoid
@@ -357,9 +381,9 @@ def do_batch(job):
             ops[o] = ops.get(o, 0) + 1
     byid = {sid_of(sc): sc for sc in scripts}
     sample = None
-    if mode == "llgo" and arg == 0 and scripts:
-        sc = scripts[0]
-        sample = {"script": sc[:6], "reference_output": ref.get(sid_of(sc), [])[:5]}
+    if mode == "llgo" and arg in (0, PER_BATCH, 2 * PER_BATCH) and scripts:
+        sc = scripts[-1]
+        sample = {"script": sc[:7], "reference_output": ref.get(sid_of(sc), [])[:6]}
     return {"mode": mode, "fails": [(sid, kind, det, byid[sid]) for sid, kind, det in fails if sid in byid], "stats": stats,
             "classes": classes, "ops": ops, "ref_disagree": dis, "sample": sample}
 
@@ -370,6 +394,7 @@ jobs += [("vg", vg_ids[k:k + VG_BATCH]) for k in range(0, len(vg_ids), VG_BATCH)
 # memcheck batches are the slow ones: start them first
 jobs.sort(key=lambda j: 0 if j[0] == "vg" else 1)
 results = core.pmap(do_batch, jobs, workers=WORKERS)
+lap("scripts")
 
 tot = {"llgo": {"steps": 0, "scripts": 0, "procs": 0}, "vg": {"steps": 0, "scripts": 0, "procs": 0}}
 classes, ops = {}, {}
@@ -486,6 +511,12 @@ def step_class(kind, det, script):
     """structural class of the failing step (diff), or the runtime frame (interposer / memcheck reports)"""
     m = re.search(r"step (\d+):", det or "")
     fr = re.search(r"runtime\.(\w+)", det or "")
+    if kind in ("crash", "hang"):
+        c = re.search(r"after (\d+) of \d+ reference lines", det or "")
+        if c and int(c.group(1)) == 0:
+            return "before-first-step"
+        if c and int(c.group(1)) + 1 < len(script):
+            return script[int(c.group(1)) + 1].partition("#")[2].strip()
     if m and int(m.group(1)) < len(script):
         return script[int(m.group(1))].partition("#")[2].strip()
     if kind in ("overlap", "memcheck") and fr:
@@ -531,5 +562,7 @@ for mode, sid, kind, det, sc in allfails:
         kind, sid, chk.seed, "memcheck/nogc" if mode == "vg" else "gc+interposer", len(small) - 1, d2 or det, "\n".join(small[1:][:25])))
     report(name, files, summary)
 chk.cov["failure_classes"] = seen_names
+lap("minimise_report")
+chk.cov["phase_s"] = phase
 
 chk.finish(floor_eval=100000 if NSCRIPTS >= 4096 else 1000, floor_distinct=150)
